@@ -38,6 +38,22 @@ def run(ck):
                 shared = True
         ck.verdict(shared, "1", "T6-provenance", ii, "handle-shares-the-queued-Rc", "the returned Idle holds a clone of the queued Rc (cancel reaches the queued callback)", "the returned Idle does not share the queued callback's allocation: cancel() cannot stop it", site=ii.where(cs.bb))
 
+    ORDER_BREAKING = ("swap_remove", "swap", "reverse", "sort", "sort_by", "sort_by_key", "sort_unstable", "sort_unstable_by", "rotate_left", "rotate_right", "insert", "push_front", "dedup")
+    for body in f.bodies.values():
+        for cs in body.calls():
+            if cs.name in ORDER_BREAKING and cs.args and not body.is_cleanup(cs.bb) and T.path_has(body, cs.args[0], ".idles") and cs.f and ("Vec" in cs.f["path"] or "slice" in cs.f["path"]):
+                ck.violation("1", "T7-who-may-call", body, "idle-list-reordered:%s" % cs.name, "the pending idle list is modified with `%s`, which does not preserve insertion order" % cs.name, site=body.where(cs.bb))
+    # nothing but dispatch_idles (take) and insert_idle (append) writes the list
+    writers = set()
+    for body in f.bodies.values():
+        for i, j, st in T.stores_to_field(body, "idles"):
+            writers.add(body.qual)
+        for cs in body.calls():
+            if cs.args and not body.is_cleanup(cs.bb) and cs.name in ("replace", "swap", "take", "clear", "truncate", "drain", "append", "extend", "push", "retain", "remove", "pop") and T.path_has(body, cs.args[0], ".idles"):
+                writers.add(body.qual.split("::{closure")[0])
+    extra = writers - {"LoopHandle::insert_idle", "EventLoop::dispatch_idles", "EventLoop::try_new"}
+    ck.verdict(not extra, "1", "T7-who-may-write", "loop_logic::LoopInner", "writers-of:idles", "the idle list is written only by insert_idle (append) and dispatch_idles (take): %s" % sorted(writers), "the idle list is also written by %s" % sorted(extra), site="src/loop_logic.rs")
+
     # ---- clause 2: dispatch_idles ---------------------------------------------------------------------
     di = ck.body("2", "EventLoop::dispatch_idles")
     takes = [cs for cs in T.calls(di, name=TAKE) if T.path_has(di, cs.args[0], ".idles")]
@@ -61,6 +77,8 @@ def run(ck):
             ck.verdict(bool(none) and set(ex) <= set(none), "2", "T5-loop-exit", di, "exits-only-on-exhaustion", "the loop is left only when the list is exhausted", "the idle loop can be left early (the remaining idles are dropped without running)", site=di.where(h))
             bad = T.t2_all_exits(di, [x for _, x in some], [d.bb], exits={h})
             ck.verdict(bad is None, "2", "T2-all-exits", di, "each-entry=>dispatch", "every entry is dispatched", "an entry can be skipped", site=di.where(d.bb))
+        back = [cs for cs in di.calls() if cs.args and not di.is_cleanup(cs.bb) and cs.bb != takes[0].bb and cs.name in ("replace", "swap", "clear", "truncate", "append", "extend", "push") and T.path_has(di, cs.args[0], ".idles") and cs.bb in di.reachable([takes[0].to])] + [i for i, j, st in di.statements() if st["s"] == "assign" and st["pl"]["p"] and T.path_has(di, st["pl"], ".idles") and i in di.reachable([takes[0].to]) and not di.is_cleanup(i)]
+        ck.verdict(not back, "2", "T7-who-may-write", di, "list-not-overwritten-after-take", "after the list was taken dispatch_idles never writes it again (idles queued by the running idles survive)", "dispatch_idles writes the idle list again after having taken it: idles inserted by the idles that just ran are overwritten and never run", site=di.where(takes[0].bb))
         gf = ck.guardflow(di)
         live = [f.short_ty(p) for l, k, p in gf.live_payloads(d.bb)]
         ck.verdict(all(x.startswith("dyn IdleDispatcher") for x in live), "2", "T1-no-guard-across-user-code", di, "no-list-guard-at-callback", "only the running idle's own cell is borrowed at the callback: %s" % live, "the idle list is still borrowed while an idle runs: %s" % live, site=di.where(d.bb))
